@@ -171,7 +171,7 @@ Proof. intros. unfold matf. destruct (existsb _ _); destruct md; reflexivity. Qe
 
 Definition run_spec (t : tree V) : Prop :=
   forall a s ed md pos m0 rest, alt s = (pos, m0) :: rest ->
-  exists s' md' out, sel_run V true p t a (s, ed, md) = ((s', ed, md'), out) /\ alt s' = alt s /\
+  exists s' md' out, sel_run V true false p t a (s, ed, md) = ((s', ed, md'), out) /\ alt s' = alt s /\
     (forall x, In x out <-> exists a', x = rev a ++ a' /\ Sel pos t a').
 
 Lemma fixed_kids : forall (l : list (tree V)) i a s ed md pos m0 rest,
@@ -225,7 +225,7 @@ Qed.
 
 (** T10_fixed_matcher for ".//" paths: the repaired matcher selects exactly the specification's node set *)
 Theorem fixed_desc_exact : forall (t : tree V) x,
-  In x (matcher_selects V true p t) <-> In x (sel_path V (pd steps) t).
+  In x (matcher_selects V true false p t) <-> In x (sel_path V (pd steps) t).
 Proof.
   intros [nm ats sm nl v ks] x. unfold matcher_selects. rewrite sel_run_unfold. unfold sel_node, p_start, pst0. cbn iota.
   rewrite (pf_start_ctx (mkPst 0 [] 0 0) nm ats eq_refl). cbn [fst mat]. change (sel_trigger 0 None) with false. cbn iota.
@@ -246,6 +246,6 @@ Lemma compile_desc : forall s1 r0, compile_path (mkSpath true (s1 :: r0) None) =
 Proof. intros. unfold compile_path. cbn [sp_desc sp_steps sp_attr app]. rewrite app_nil_r. reflexivity. Qed.
 
 Theorem fixed_matcher_desc : forall (V : Type) s1 r0 (t : tree V) x,
-  In x (matcher_selects V true (compile_path (mkSpath true (s1 :: r0) None)) t) <->
+  In x (matcher_selects V true false (compile_path (mkSpath true (s1 :: r0) None)) t) <->
   In x (sel_path V (mkSpath true (s1 :: r0) None) t).
 Proof. intros. rewrite compile_desc. apply fixed_desc_exact. Qed.
